@@ -146,7 +146,7 @@ class ChordProgression(events_lib.SimpleEventSequence):
     # Sort track by chord times.
     chords = sorted([a for a in quantized_sequence.text_annotations
                      if a.annotation_type == CHORD_SYMBOL],
-                    key=lambda chord: chord.quantized_step)
+                    key=lambda chord: (chord.quantized_step, chord.time))
 
     prev_step = None
     prev_figure = NO_CHORD
